@@ -370,7 +370,7 @@ def _k5_job(job):
     from . import C10 as K10
     ctx = _CTX; part = Part()
     pre, word, post = job[1] if len(job) > 1 else TEXTUAL[name]
-    canon_word = job[3] if len(job) > 3 else canon_word
+    canon_word = job[3] if len(job) > 3 else TEXTUAL_CANON.get(name, word.upper())
     P = ctx.program()
     k_parse = P.find_fn('ironplc-parser', 'parse_program')
     k_opt = [k for k in P.items if k[0] == 'ironplc-parser' and re.search(r'ParseOptions as (std::default::)?Default>::default|options::<impl at [^>]*>::default', k[1])]
@@ -701,5 +701,81 @@ def k9(ctx, kr):
     kr.exhaustive = True
     kr.outside = ['programs other than the six; two positions changed at once; layout inside tokens']
 
-KERNELS = [k1a, k1b, k2, k4, k5, k6, k7, k8, k9, k10]
+# ---------------------------------------------------------------------------------------------- K11 keyword case and the optional semicolon, through the whole front end
+NESTED_IFS = ('PROGRAM p\nVAR\n  i : INT;\n  k : INT;\nEND_VAR\n  IF i > 0 THEN\n    IF k > 0 THEN\n      k := 1;\n    END_IF', ';', '\n  ELSIF i < 0 THEN\n    CASE k OF\n      1:\n        IF i = 1 THEN\n          k := 2;\n        END_IF', ';',
+              '\n    END_CASE;\n  ELSE\n    k := 3;\n  END_IF', ';', '\n  k := 4;\nEND_PROGRAM\n')
+def _respell(text, how):
+    """keywords and elementary type names are the words written in upper case in these programs (identifiers are written in lower case)"""
+    if how == 'upper': return text
+    f = (lambda w: w.lower()) if how == 'lower' else (lambda w: '_'.join(x.capitalize() for x in w.split('_')))
+    return re.sub(r'\b[A-Z][A-Z_0-9]+\b', lambda m: f(m.group(0)), text)
+def _k11_variants(pname):
+    out = []
+    if pname == 'nested_ifs':
+        for case in ('upper', 'lower', 'mixed'):
+            for bits in range(8):
+                t = ''.join(seg if k % 2 == 0 else (';' if (bits >> (k // 2)) & 1 else '') for k, seg in enumerate(NESTED_IFS))
+                out.append(('%s/%s' % (case, ''.join(';' if (bits >> j) & 1 else '-' for j in range(3))), _respell(t, case)))
+    else:
+        for case in ('upper', 'lower', 'mixed'): out.append((case, _respell(LAYOUT_PROGRAMS[pname], case)))
+    return out
 
+def _k11_job(job):
+    pname, idxs = job
+    from . import C10 as K10, C01 as K01, tplcommon as TP
+    ctx = _CTX; part = Part(); part.res = {}; part.pname = pname
+    variants = _k11_variants(pname)
+    P = ctx.program()
+    k_parse = P.find_fn('ironplc-parser', 'parse_program'); k_opt = TP.parse_opts(P)
+    st = {}
+    M = Machine(P, stubs=K10.dyn_lexer_stubs(ctx, {}), max_steps=400_000_000)
+    def entry(M):
+        g = M.fresh_bv('variant', 16); M.declare_domain(g, list(idxs)); vi = idxs[-1]
+        for v in idxs[:-1]:
+            if M.branch(g == v): vi = v; break
+        st['key'] = vi
+        fid = Ref(Cell(Agg('FileId', [Str('f.st')])))
+        opts = Ref(Cell(M.call_fn(k_opt[0], []) if k_opt else Agg('ParseOptions', [False])))
+        r1 = M.call_fn(k_parse, [Ref(Cell(Str(variants[vi][1]))), fid, opts])
+        return 'rejected' if r1.disc != 0 else K01._canon(M, r1.f[0])
+    def on_path(M, pr):
+        part.paths += 1
+        if pr.inconclusive: part.inconc('%s: %s' % (pname, pr.inconclusive)); return
+        if pr.panic: part.inconc('%s: panic (C04) %s' % (pname, pr.panic.msg[:50])); return
+        part.nontrivial += 1
+        part.res[st['key']] = pr.result
+    M.explore(entry, on_path)
+    part.queries += M.stats['smt']; part.encoded = set(M.encoded); part.models = set(M.models_used)
+    return part
+
+@kernel('K11 parser.keyword_case_and_end_if_semicolon')
+def k11(ctx, kr):
+    global _CTX
+    _CTX = ctx
+    progs = list(LAYOUT_PROGRAMS) + ['nested_ifs']
+    jobs = []
+    for pn in progs:
+        n = len(_k11_variants(pn)); idx = list(range(n))
+        for c in range(0, n, 4): jobs.append((pn, idx[c:c + 4]))
+    kr.bounds = ('%d programs (%s): every keyword and elementary type name written in upper case, in lower case and capitalised (End_If); in nested_ifs additionally each of the three END_IF with and without its semicolon (all 8 subsets): '
+                 'parse_program on the MIR accepts every variant and returns the library of the upper-case text with all semicolons (positions and the letter case of identifiers ignored)' % (len(progs), ', '.join(progs)))
+    res = {pn: {} for pn in progs}
+    for part in par_map(_k11_job, jobs):
+        res[part.pname].update(part.res); merge_part(kr, part)
+    for pn, R in res.items():
+        variants = _k11_variants(pn)
+        ref_i = 7 if pn == 'nested_ifs' else 0        # upper case, all semicolons
+        if ref_i not in R: continue
+        for vi, out in sorted(R.items()):
+            if vi == ref_i or out == R[ref_i]: continue
+            role = 'C08/K11/%s/%s' % (pn, variants[vi][0])
+            kr.findings.append(Finding(role, 'program %s written %s: %s, but the upper-case text with every semicolon gives %s' % (pn, variants[vi][0], 'is rejected' if out == 'rejected' else 'parses to a different library', 'a rejection' if R[ref_i] == 'rejected' else 'a library'),
+                                       {'a': variants[ref_i][1], 'b': variants[vi][1]}, replay=_replay_layout_pair(variants[ref_i][1], variants[vi][1])))
+    if len(kr.validate) < 1:
+        v = _k11_variants('nested_ifs'); kr.validate.append(('layout_pair', (v[7][1], v[8][1])))
+    P = ctx.program()
+    kr.functions = fn_paths(P, getattr(kr, '_enc', set()))[:150] + ['ironplc-parser::<TokenType as Logos>::lex (lifted)']
+    kr.exhaustive = True
+    kr.outside = ['other programs; a different case per keyword occurrence (K1a covers every case pattern of every keyword at the lexer)']
+
+KERNELS = [k1a, k1b, k2, k4, k5, k6, k7, k8, k9, k10, k11]
